@@ -415,6 +415,37 @@ def proof_coverage(run, cres, checker_cmd, extra_trusted=()):
     cov["trusted_base"] = (["Coq 8.16.1 kernel + vm_compute (no native_compute)"]
                            + ["axiom: " + a for a in cres["axioms"]] + list(extra_trusted))
     cov["coq_files"] = cres.get("files", [])
+    if run.tier == "thorough" and cres.get("ok"):
+        coqchk_recheck(run)
+
+
+def coqchk_recheck(run):
+    """thorough tier: the compiled property file and everything it depends on are re-checked by Coq's independent checker
+    (coqchk); its context summary (axioms of EVERY loaded library, type-in-type, unsafe fixpoints, assumed positivity) goes
+    into the evidence; anything but axioms makes the run fail (no failing input: the development itself is unsound)"""
+    cmd = "timeout 2400 coqchk -o -silent -Q theories LN -Q generated LNGen LN.Properties_%s" % run.pid
+    t0 = time.time()
+    with Lock("coq"):
+        rc, out = sh(cmd, cwd=COQ, timeout=2500)
+    summ = out[out.find("CONTEXT SUMMARY"):] if "CONTEXT SUMMARY" in out else out[-1500:]
+    sect = {}
+    cur = None
+    for line in summ.split("\n"):
+        m = re.match(r"^\* (.*?):\s*(.*)$", line.strip())
+        if m:
+            cur = m.group(1)
+            sect[cur] = [m.group(2)] if m.group(2) and m.group(2) != "<none>" else []
+        elif cur and line.strip() and not line.startswith("="):
+            sect[cur].append(line.strip())
+    run.coverage["coqchk"] = {"cmd": cmd, "exit": rc, "seconds": round(time.time() - t0, 1),
+                              "axioms_of_all_loaded_libraries": sect.get("Axioms", []),
+                              "type_in_type": sect.get("Constants/Inductives relying on type-in-type", []),
+                              "unsafe_fixpoints": sect.get("Constants/Inductives relying on unsafe (co)fixpoints", []),
+                              "assumed_positivity": sect.get("Inductives whose positivity is assumed", [])}
+    c = run.coverage["coqchk"]
+    if rc != 0 or c["type_in_type"] or c["unsafe_fixpoints"] or c["assumed_positivity"]:
+        run.violation("coqchk", {"kind": "coqchk (independent re-check of the compiled proofs) failed", "exit": rc,
+                                 "summary": summ[-3000:]}, no_input=True)
 
 
 def handle_coq_failure(run, cres):
